@@ -581,7 +581,7 @@ pub fn marshal_rtcp_packets(packets: &[RtcpPacket]) -> RtpResult<Vec<u8>> {
                 &mut out,
                 sdes.chunks.len() as u8,
                 RTCP_SDES,
-                build_sdes_body(sdes),
+                build_sdes_body(sdes)?,
             ),
             RtcpPacket::Goodbye(bye) => write_rtcp_packet(
                 &mut out,
@@ -930,11 +930,15 @@ fn build_receiver_report_body(rr: &ReceiverReport) -> RtpResult<Vec<u8>> {
     Ok(body)
 }
 
-fn build_sdes_body(sdes: &SourceDescription) -> Vec<u8> {
+fn build_sdes_body(sdes: &SourceDescription) -> RtpResult<Vec<u8>> {
     let mut body = Vec::new();
     for chunk in &sdes.chunks {
         body.extend_from_slice(&chunk.ssrc.to_be_bytes());
         for item in &chunk.items {
+            // RFC 3550 6.5: the item length is a single octet
+            if item.text.len() > 255 {
+                return Err(RtpError::InvalidRtcp("SDES item text longer than 255 bytes"));
+            }
             body.push(item.ty);
             body.push(item.text.len() as u8);
             body.extend_from_slice(item.text.as_bytes());
@@ -944,7 +948,7 @@ fn build_sdes_body(sdes: &SourceDescription) -> Vec<u8> {
             body.push(0);
         }
     }
-    body
+    Ok(body)
 }
 
 fn build_goodbye_body(bye: &Goodbye) -> Vec<u8> {
